@@ -3,6 +3,7 @@
 import itertools
 import os
 import shutil
+import signal
 import sqlite3
 
 from .. import core, data, faults, gen_planted
@@ -25,7 +26,7 @@ RULE = (
     'set-curvature} x {rise, recession}, each with 0-3 failing attempts interleaved (duplicate step, injected fault, '
     'kill; after a completed step also a plain repeat, a repeat hitting an injected error, a repeat with an argument the '
     'step rejects such as -d 0 or an off-grid reference -- each failing attempt must leave the dump unchanged), must end in '
-    'the same dump.  Non-trivial: fault point after the first write of the step; distinct (dataset, '
+    'the same dump.  Long record: one record of 230 000 (thorough: 400 000) time steps -- more changed pages than the page cache of SQLite holds, so that pages of the unfinished transaction reach the dataset file before the commit -- is classified and the process killed at four late statement boundaries and at 3 (16) arbitrary instants in the second half of the step; content compared by per-table row counts and digests.  Non-trivial: fault point after the first write of the step; distinct (dataset, '
     'step, index, mode) counted.'
 )
 ASSUMPTIONS = [
@@ -33,7 +34,8 @@ ASSUMPTIONS = [
     'exhaustive over the statement indices of the datasets driven, not over datasets',
 ]
 EXHAUSTIVE = {'quick': False, 'thorough': True}
-SIZES = {'quick': dict(datasets=2, kill_every=3, rows='sample', histories=12, timed_kills=6), 'thorough': dict(datasets=8, kill_every=1, rows='all', histories=12, timed_kills=60)}
+SIZES = {'quick': dict(datasets=2, kill_every=3, rows='sample', histories=12, timed_kills=6, long_steps=230000, long_timed_kills=3),
+         'thorough': dict(datasets=8, kill_every=1, rows='all', histories=12, timed_kills=60, long_steps=400000, long_timed_kills=16)}
 REQUIRED = {
     tier: {
         'exception-faults-injected': 200,
@@ -49,6 +51,8 @@ REQUIRED = {
         'step:classify': 1, 'step:set-zeta-grid': 1, 'step:set-curvature': 1, 'step:rise': 1, 'step:recession': 1,
         'commit-statements-seen': 5,
         'rejected-argument-attempts-checked': 2,
+        'long-record:kills-at-statement-boundaries': 3,
+        'long-record:reruns-after-kill-checked': 4,
     }
     for tier in ('quick', 'thorough')
 }
@@ -396,6 +400,121 @@ def run_histories(ctx, rng, case, base, tag, nhist):
         os.remove(work)
 
 
+def table_signature(path):
+    """{table: (row count, digest of the rows in key order)} -- a dump that stays cheap for
+    records of hundreds of thousands of steps"""
+    import hashlib
+
+    connection = faults.plain_connect(path)
+    try:
+        out = {}
+        for (table,) in connection.execute("SELECT name FROM sqlite_master WHERE type='table' ORDER BY 1").fetchall():
+            h = hashlib.md5()
+            n = 0
+            for row in connection.execute('SELECT * FROM {} ORDER BY 1, 2'.format(table) if table not in ('thresholds', 'zeta_grid', 'curvature', 'time_grid')
+                                          else 'SELECT * FROM {}'.format(table)):
+                h.update(repr(row).encode())
+                n += 1
+            out[table] = (n, h.hexdigest())
+        return out
+    finally:
+        connection.close()
+
+
+def long_record_kills(ctx, sizes):
+    """A record long enough for SQLite to write pages of the unfinished transaction into the
+    dataset file before the commit (its page cache holds about 2 MB of changed pages; the flags
+    of some 170 000 time steps fill it): classify is killed late in the step, at statement
+    boundaries and at arbitrary instants.  Only the on-disk rollback journal can then restore
+    the previous content"""
+    import time
+
+    rec = ctx.rec
+    rng = core.make_rng(ctx.seed, 'long-record')
+    n = sizes['long_steps']
+    step = 600
+    rain = [0.0] * n
+    z = [0.0] * n
+    level = -100.0
+    i = 0
+    while i < n:
+        if rng.random() < 0.004:
+            k = rng.randint(1, 4)
+            for j in range(i, min(n, i + k)):
+                rain[j] = rng.choice([12.0, 30.0, 6.5])
+                level += rain[j] * step / 3600.0 / 0.3
+                z[j] = level
+            i += k
+            continue
+        level -= rng.choice([0.01, 0.02, 0.005])
+        z[i] = level
+        i += 1
+    t0 = data.parse_t0('2001-01-01 00:00:00')
+    paths = []
+    for name, header, values in (('p', 'Datetime,precipitation_mm_h', rain), ('e', 'Datetime,evapotranspiration_mm_h', None), ('z', 'Datetime,water_level_mm', z)):
+        path = os.path.join(ctx.workdir, 'long_{}.txt'.format(name))
+        with open(path, 'w') as f:
+            f.write(header + '\n')
+            for k in range(n + (1 if values is None else 0)):
+                f.write('{},{!r}\n'.format(data.ts(t0, k * step), 0.1 if values is None else values[k]))
+        paths.append(path)
+    base = os.path.join(ctx.workdir, 'long_base.sqlite3')
+    work = os.path.join(ctx.workdir, 'long_work.sqlite3')
+    status, exc = data.cli(['load', base, '-p', paths[0], '-e', paths[1], '-z', paths[2], '--timezone', 'UTC'])
+    if exc is not None or status != 0:
+        rec.inconclusive_because('long record could not be loaded: {}'.format(core.describe_exception(exc) if exc else status))
+        return
+    argv = ['classify', 'X', '-s', '4.0', '-j', '5.0']
+    clean = os.path.join(ctx.workdir, 'long_clean.sqlite3')
+    fresh_copy(base, clean)
+    t_start = time.time()
+    status, exc, N, log, rows, _ = run_step(argv, clean)
+    t_clean = time.time() - t_start
+    if exc is not None or status != 0:
+        rec.inconclusive_because('long record could not be classified: {}'.format(exc.desc if exc else status))
+        return
+    pre, post = table_signature(base), table_signature(clean)
+    rec.hit('long-record:steps', n)
+    rec.hit('long-record:statements-of-classify', N)
+    scase = {'long_record_steps': n, 'seed': ctx.seed}
+
+    def verdict(label, w):
+        got = table_signature(work)
+        if got != pre and got != post:
+            rec.violation('mixed-state-after-kill-on-a-long-record:classify',
+                          dict(w, tables_changed=[t for t in got if got[t] != pre.get(t)], tables_incomplete=[t for t in got if got[t] != post.get(t)],
+                               rows={t: got[t][0] for t in got if got[t] != pre.get(t)}), scase, 'long')
+            return
+        rec.hit('long-record:state-after-kill:' + ('pre' if got == pre else 'post'))
+        status2, exc2, *_ = run_step(argv, work)
+        if table_signature(work) != post:
+            rec.violation('rerun-after-kill-on-a-long-record-does-not-reach-the-clean-result:classify',
+                          dict(w, rerun_exception=exc2.desc if exc2 else None), scase, 'long')
+            return
+        rec.hit('long-record:reruns-after-kill-checked')
+        rec.mark_nontrivial('long|{}|{}'.format(label, sorted(w.items())))
+
+    for at in sorted({N, N - 1, max(1, int(0.6 * N)), max(1, int(0.85 * N))}):
+        rec.case()
+        fresh_copy(base, work)
+        st = run_step_killed(argv, work, at, 'kill-before')
+        if not (os.WIFSIGNALED(st) and os.WTERMSIG(st) == signal.SIGKILL):
+            rec.inconclusive_because('child classifying the long record was not killed at statement {} (status {})'.format(at, st))
+            continue
+        rec.hit('long-record:kills-at-statement-boundaries')
+        verdict('statement', {'statement_index': at, 'of': N, 'statement': log[at - 1][1] if at - 1 < len(log) else None})
+    for _ in range(sizes['long_timed_kills']):
+        rec.case()
+        fresh_copy(base, work)
+        delay = rng.uniform(0.55, 1.02) * t_clean
+        killed = run_step_killed_after(argv, work, delay)
+        rec.hit('long-record:timed-kills-while-running' if killed else 'long-record:timed-kills-after-completion')
+        verdict('timed', {'killed_after_s': round(delay, 2), 'clean_run_s': round(t_clean, 2)})
+    for f in (base, work, clean) + tuple(paths):
+        if os.path.exists(f):
+            os.remove(f)
+
+
 def run(ctx):
     s = SIZES[ctx.tier]
     faults.install()
@@ -432,6 +551,8 @@ def run(ctx):
                 else:
                     name, mk = STEPS[u]
                     enumerate_step_faults(ctx, case, name, mk(case), chain[u], tag, s)
+        if ctx.shard == ctx.nshards - 1 and s.get('long_steps'):
+            long_record_kills(ctx, s)
     finally:
         faults.uninstall()
         faults.disable()
